@@ -789,3 +789,30 @@ package fsm
 //@   loop 0 invariant forall q string :: old(s.fsm.fs.dHas[q]) ==> s.fsm.fs.dHas[q]
 //@   loop 0 invariant forall q string :: old(s.fsm.fs.vHas[q]) ==> s.fsm.fs.vHas[q]
 //@   loop 0 invariant (db.vP[bytesOf(sysLocalIndex)] ==> blen(db.vV[bytesOf(sysLocalIndex)]) == 8) && (db.vP[bytesOf(sysLeaderIndex)] ==> blen(db.vV[bytesOf(sysLeaderIndex)]) == 8)
+
+//@ import tar "archive/tar"
+//@ func tar.NewReader
+//@   assumed
+//@   ensures result != nil && fresh(result)
+//@   modifies nothing
+//@ func tar.(*Reader).Next
+//@   assumed
+//@   results hdr, err
+//@   ensures err == nil ==> hdr != nil
+//@   modifies family(G_any_rest)
+
+// recover (checkpoint format): same install discipline - un-tar into a new directory, open it, read
+// the index, only then switch `current` durably and swap the DB pointer
+//@ func (*checkpoint).recover
+//@   params c, r, stopc
+//@   results er
+//@   requires c != nil && c.fsm != nil && c.fsm.fs != nil && c.fsm.log != nil && c.fsm.metrics != nil && r != nil && parentOf(c.fsm.dirname) != c.fsm.dirname
+//@   requires [inv] recoverable(c.fsm.fs, c.fsm.dirname) && (c.fsm.fs.dCur[c.fsm.dirname] != "" ==> c.fsm.fs.vHas[pjoin(c.fsm.dirname, c.fsm.fs.dCur[c.fsm.dirname])]) && c.fsm.fs.vCur[c.fsm.dirname] == c.fsm.fs.dCur[c.fsm.dirname] && c.fsm.fs.dCur[c.fsm.dirname] != "current.updating"
+//@   before pebble.ReplaceCurrentDBFile assert [C08.install.opened] fs.opened[pjoin(dir, fs.updName[dir])]
+//@   ensures [C08.install.recoverable] recoverable(c.fsm.fs, c.fsm.dirname)
+//@   ensures [C08.install.swap] c.fsm.pebble.v != old(c.fsm.pebble.v) ==> c.fsm.fs.dCur[c.fsm.dirname] == c.fsm.fs.vCur[c.fsm.dirname] && c.fsm.fs.opened[pjoin(c.fsm.dirname, c.fsm.fs.dCur[c.fsm.dirname])]
+//@   modifies c.fsm.fs.vHas, c.fsm.fs.dHas, c.fsm.fs.dCur, c.fsm.fs.vCur, c.fsm.fs.updName, c.fsm.fs.opened, c.fsm.pebble.v, family(G_any_rest), family(G_any_sdata), family(G_any_slen), family(G_any_vP), family(G_any_vV)
+//@   loop 0 invariant tr != nil && c.fsm == old(c.fsm) && c.fsm.fs.vHas[dbdir] && c.fsm.pebble.v == old(c.fsm.pebble.v)
+//@   loop 0 invariant forall d string :: c.fsm.fs.dCur[d] == old(c.fsm.fs.dCur[d]) && c.fsm.fs.vCur[d] == old(c.fsm.fs.vCur[d])
+//@   loop 0 invariant forall q string :: old(c.fsm.fs.dHas[q]) ==> c.fsm.fs.dHas[q]
+//@   loop 0 invariant forall q string :: old(c.fsm.fs.vHas[q]) ==> c.fsm.fs.vHas[q]
